@@ -109,15 +109,22 @@ class LabelParser:
             return U(u.dim, model.mmul(u.mag, mag) if mag is not None else u.mag)
         if self.peek("EQUIV{"):
             self.eat("EQUIV{")
-            outer, us = self.unknown_scale, []
+            outer, us, texts = self.unknown_scale, [], []
             while True:
                 self.unknown_scale = False
+                start = self.i
                 u1 = self.label()
-                us.append((u1, self.unknown_scale))
+                us.append((u1, self.unknown_scale)); texts.append(self.t[start:self.i])
                 if not self.peek(", "):
                     break
                 self.eat(", ")
             self.eat("}")
+            # EQUIV{...} lists the distinct, mutually equivalent spellings of a common unit: with a single spelling the label is that unit's own label
+            # (unit_of_measure_test: "reduces to single unit label if all units are the same"; a repeated member is the failure mode named there)
+            if len(us) < 2:
+                raise ParseError("EQUIV{} with a single member in %r" % self.t)
+            if len(set(texts)) != len(texts):
+                raise ParseError("EQUIV{} repeats a member in %r" % self.t)
             known = [x for x, unk in us if not unk]
             # members whose scale factor is printed are compared exactly; members with an unprintable scale factor only by dimension
             if any(x.key() != known[0].key() for x in known) or any(x.dim != us[0][0].dim for x, _ in us):
